@@ -1,4 +1,6 @@
 """C01 - the generated vector field equals the model the user wrote (NumPy backend)."""
+import copy
+
 import numpy as np
 from hypothesis import strategies as st
 
